@@ -23,7 +23,7 @@ def make_conv(ctx, name, tier):
     elif name == 'chunked+get':
         data, body, declared, end, headlen = build_request(ctx, 'chunked', tier)
     elif name in ('cl-1025+get', 'cl-1025-unread+get'):
-        data, body, declared, end, headlen = build_request(ctx, 'cl-1025', tier)
+        data, body, declared, end, headlen = build_request(ctx, 'cl-1025', tier, concrete_body=(name == 'cl-1025-unread+get'))
     elif name == 'malformed-second':
         data = K(b'GET /1 HTTP/1.1\r\nHost: h\r\n\r\n') + K(b'GET /2\r\n\r\n')
     else:
@@ -41,6 +41,8 @@ def one_run(S, ctx, data, tag, reads, short, read_bodies=True):
                 break
             s = cv.summary(rq)
             out['urls'].append(s['url'])
+            out.setdefault('methods', []).append(s['method'].variant if isinstance(s['method'], Enum) else '?')
+            out.setdefault('nheaders', []).append(len(s['headers']))
             cell = Cell(rq)
             got, eofs, err = read_all(cv, ctx, cell, reads) if read_bodies else ([], 0, None)
             out['bodies'].append((got, eofs, err))
@@ -75,7 +77,8 @@ def run(L, rep, tier, seed):
         sc = lambda m: {'kind': 'conversation-two-segmentations', 'conversation': name, 'bytes_hex': model_bytes(m, data).hex() if len(data) < 400 else None,
                         'segments': seg['segs'], 'ref': {'codes': ref['codes'], 'n': len(ref['urls'])}, 'seg': {'codes': seg['codes'], 'n': len(seg['urls'])}}
         a, b = ref, seg
-        same = [z3.BoolVal(len(a['urls']) == len(b['urls'])), z3.BoolVal(a['codes'] == b['codes']), z3.BoolVal(a['blocked'] == b['blocked']),
+        same = [z3.BoolVal(len(a['urls']) == len(b['urls'])), z3.BoolVal(a['codes'] == b['codes']), z3.BoolVal(a.get('methods') == b.get('methods')),
+                z3.BoolVal(a.get('nheaders') == b.get('nheaders')), z3.BoolVal(a['blocked'] == b['blocked']),
                 z3.BoolVal(a['panic'] == b['panic'])]
         if len(a['urls']) == len(b['urls']):
             for ua, ub in zip(a['urls'], b['urls']):
